@@ -21,8 +21,8 @@ RULE = ('case 0: evaluator validation. Other cases: one pair (a, b) of integer t
         'construction are exercised in 1 case of 8 only (known mechanism), the four order operators always. '
         'Non-trivial = at least one operator returned a definite bool that was evaluated at 64 valuations; '
         'distinct = rendered pair.')
-CASES = {'quick': 4000, 'thorough': 80000}
-MIN_NONTRIVIAL = {'quick': 1200, 'thorough': 25000}
+CASES = {'quick': 4000, 'thorough': 240000}
+MIN_NONTRIVIAL = {'quick': 1200, 'thorough': 70000}
 ANCHORS = ['loki/expression/symbolic.py']
 REQUIRED_REACH = ['symbolic_op', 'is_minus_prefix', 'strip_minus_prefix', 'simplify']
 REQUIRED_COUNTERS = {'evaluator_validated_values': 500, 'definite_answers_checked': 2000,
